@@ -185,15 +185,18 @@ class CallGraph:
         return [Callee("unknown", name=_safe_unparse(f))]
 
     # ---------------------------------------------------------------- queries
-    def reach(self, roots: List[FunctionInfo], include_dunders=True) -> Set[str]:
+    def reach(self, roots: List[FunctionInfo], include_dunders=True, barred_modules: Tuple[str, ...] = ()) -> Set[str]:
         """Functions reachable from roots. With include_dunders, special methods and properties of every class
-        instantiated in reachable code are considered reachable as well (operators, sorting, hashing)."""
+        instantiated in reachable code are considered reachable as well (operators, sorting, hashing).
+        Functions of `barred_modules` (module-name prefixes) are neither entered nor passed through."""
         seen: Set[str] = set()
         work = [r.qualname for r in roots]
         inst_seen: Set[str] = set()
         while work:
             q = work.pop()
             if q in seen or q not in self.p.functions:
+                continue
+            if barred_modules and self.p.functions[q].module.name.startswith(barred_modules):
                 continue
             seen.add(q)
             for c in self.edges.get(q, ()):  # noqa
